@@ -149,6 +149,17 @@ func (e *Env) Eval(x SExpr) Val {
 		if v, ok := e.x.specConst(e, n.Name); ok {
 			return v
 		}
+		if a, ok := e.x.alias[n.Name]; ok {
+			// the variable was renamed since the contract was written (see NameTable)
+			if v, ok := e.vars[a]; ok {
+				return v
+			}
+			if e.lookup != nil {
+				if v, ok := e.lookup(a); ok {
+					return v
+				}
+			}
+		}
 		sfail("unknown identifier %q", n.Name)
 	case *SUnary:
 		v := e.Eval(n.X)
@@ -544,6 +555,13 @@ func (e *Env) evalCall(n *SCall) Val {
 		// the uninterpreted functions the models of strings.ToUpper/ToLower/TrimSpace use
 		nm := map[string]string{"toupper": "strings.ToUpper", "tolower": "strings.ToLower", "trimspace": "strings.TrimSpace"}[n.Fun]
 		fn := e.vc().Fun("fn:"+nm, []string{"String"}, "String")
+		return Val{T: stringT, S: app(fn, arg(0).S)}
+	case "strcount":
+		// strings.Count(s, sep), the uninterpreted function its model uses
+		fn := e.vc().Fun("fn:strings.Count", []string{"String", "String"}, "Int")
+		return Val{T: intT, S: app(fn, arg(0).S, arg(1).S)}
+	case "pathclean":
+		fn := e.vc().Fun("fn:filepath.Clean", []string{"String"}, "String")
 		return Val{T: stringT, S: app(fn, arg(0).S)}
 	case "trimprefix":
 		// strings.TrimPrefix(s, p), as in its model
